@@ -235,7 +235,10 @@ pub fn run(args: &Args) {
         if rng.chance(2, 3) { cfg.min_unb = 86_400; cfg.max_unb = 31_556_926; }
         let len = focus.len.0 + rng.below(focus.len.1 - focus.len.0 + 1);
         let pre = if rng.chance(3, 4) { preamble(&mut rng, &cfg, i % 5 == 0) } else { vec![] };
-        if let Some(r) = run_case(&mut out, &mut rng, &cfg, pre, len, &focus, "C13", "generated", &mut extra) {
+        // amounts up to 2^100 / 2^124 in a third of the histories
+        let mut focus_i = focus.clone();
+        focus_i.big_amounts = i % 3 == 0;
+        if let Some(r) = run_case(&mut out, &mut rng, &cfg, pre, len, &focus_i, "C13", "generated", &mut extra) {
             let claims_paid = out.hist.get("claim:paid_something").copied().unwrap_or(0);
             let _ = claims_paid;
             if r.kinds.contains("Claim") && r.kinds.contains("Snapshot") && r.kinds.contains("OpenPosition") { out.nontrivial_key(hash_str(&coq_ops(&r.ops))); }
